@@ -4,6 +4,7 @@ CONSTANTS
   QueryCacheMax = 1
   MaxEdits = 2
   Queries = {"", "a", "b", "ab"}
+  MaxReloads = 0
   AllowOlder = FALSE
 SPECIFICATION Spec
 INVARIANTS PublishedIsFilter ShownIsFilter MergerCacheSound ChunkCacheSound Convergence
